@@ -338,7 +338,7 @@ def part_money(p, rates):
 
 
 @guarded('C10')
-def run_xref_mixing(w, s1, s2):
+def run_xref_mixing(w, s1, s2, tag='C10:explicit-ref-unit'):
     """two price units of different currencies never mix"""
     Q = w.q
     u1, u2 = w.units[s1], w.units[s2]
@@ -354,7 +354,7 @@ def run_xref_mixing(w, s1, s2):
             r = exc
         if name == '==' and r is False:
             continue
-        out.append(('C10:explicit-ref-unit:currencies-mixed',
+        out.append((tag + ':currencies-mixed',
                     f"(3 {s1}) {name} (3 {s2}) gives {r!r} although the "
                     "prices are in different currencies"))
     return out
@@ -426,6 +426,16 @@ def part_compound(p, rates):
     mask, kind = p
     st = Stats()
     w, declared = build_compound(mask, kind)
+    for s1 in declared:
+        for s2 in declared:
+            c1 = [x for x, e in w.um[s1].udim if x in CUR]
+            c2 = [x for x, e in w.um[s2].udim if x in CUR]
+            if c1 != c2:
+                st.paths += 1
+                st.transitions += 4
+                st.evaluations += 4
+                for sig, msg in run_xref_mixing(w, s1, s2, 'C10:price-units'):
+                    st.violation(sig, msg, {'mixing': [mask, kind, s1, s2]})
     for psym in list(declared) + ['kg', 'EUR', 'USD']:
         for c in ('EUR', 'USD'):
             st.paths += 1
@@ -475,6 +485,10 @@ def replay_price_mass(case):
 
 
 def replay(case):
+    if 'mixing' in case and 'xref' not in case:
+        mask, kind, s1, s2 = case['mixing']
+        w, declared = build_compound(mask, kind)
+        return run_xref_mixing(w, s1, s2, 'C10:price-units')
     if 'identity' in case:
         mask, kind, psym, c = case['identity']
         w, declared = build_compound(mask, kind)
